@@ -70,7 +70,7 @@ func runC05(e *Env) error {
 	if e.Thorough() {
 		n = 6000
 	}
-	e.Res.Rule = fmt.Sprintf("%d populated SQLite databases (2-4 tables, 4 rows each incl. NULLs; self/cross foreign keys with CASCADE/SET NULL/RESTRICT; fk enforcement on for half) x desired = 1-3 elementary edits: ApplyChanges on a real engine; monitors: no row lost or added, every surviving same-typed column keeps its value (NULL -> default only when the column becomes NOT NULL), untouched tables identical, no foreign-key violations introduced; the INSERT..SELECT of every rebuild == Lean copyPlan; non-trivial = at least one table rebuilt or altered with rows; distinct by seed", n)
+	e.Res.Rule = fmt.Sprintf("%d populated SQLite databases (2-4 tables, 4 rows each incl. NULLs; self/cross foreign keys with CASCADE/SET NULL/RESTRICT; fk enforcement on for half) x desired = 1-3 elementary edits: ApplyChanges on a real engine; monitors: no row lost or added, every surviving same-typed column keeps its value (NULL -> default only when the column becomes NOT NULL), untouched tables identical, no foreign-key violations introduced; an apply the engine refuses (temporary name taken; a nullable column with NULLs made NOT NULL without a default) leaves every row and value in place; the INSERT..SELECT of every rebuild == Lean copyPlan; non-trivial = at least one table rebuilt or altered with rows; distinct by seed", n)
 	var mu sync.Mutex
 	viol := func(kind, sig, what, chk string, rep any) {
 		mu.Lock()
@@ -119,6 +119,25 @@ func runC05(e *Env) error {
 						cs[1].Default = g.defaultFor(cs[1].Type)
 					}
 					edits = append(edits, &sqEdit{"backfill+later-default", t.Name, cs[0].Name + "," + cs[1].Name})
+					break
+				}
+			}
+		}
+		if ci%9 == 4 {
+			// a nullable column (holding NULLs in some rows) becomes NOT NULL without a default: the engine rejects
+			// the copy; the apply has to fail and must not take the rows
+			for _, t := range des.Tables {
+				done := false
+				for i := range t.Cols {
+					c := &t.Cols[i]
+					if c.Gen == "" && c.Name != "id" && c.Name != "k2" && !c.NotNull && !strings.HasPrefix(c.Name, "r") && !indexed(t, c.Name) && cur.table(t.Name) != nil && cur.table(t.Name).col(c.Name) != nil {
+						c.NotNull, c.Default = true, ""
+						edits = append(edits, &sqEdit{"not-null-without-default", t.Name, c.Name})
+						done = true
+						break
+					}
+				}
+				if done {
 					break
 				}
 			}
@@ -277,8 +296,10 @@ func c05Run(ctx context.Context, pool *hx.Pool, c *c05Case, cur, des *sqSchema, 
 	}
 	if err := drv.ApplyChanges(ctx, changes); err != nil {
 		es := err.Error()
-		if strings.Contains(es, "already exists") && strings.Contains(es, "new_") {
-			// refused because the temporary name is taken: nothing may have been lost
+		dataRefusal := strings.Contains(es, "constraint failed") || strings.Contains(es, "cannot store") || strings.Contains(es, "datatype mismatch")
+		if strings.Contains(es, "already exists") && strings.Contains(es, "new_") || dataRefusal {
+			// refused because the temporary name is taken, or because the existing rows do not fit the desired
+			// definition: nothing may have been lost
 			for _, t := range cur.Tables {
 				// (statements planned before the refused one may have run: a table may have gained columns or
 				// lost dropped ones, but no row and no value of a surviving column may be gone)
@@ -307,10 +328,10 @@ func c05Run(ctx context.Context, pool *hx.Pool, c *c05Case, cur, des *sqSchema, 
 					add("failing-input", "rows-lost", fmt.Sprintf("the apply is refused (%s) but table %s lost rows or values (%v)\ncurrent:\n%s\ndesired:\n%s", trunc(es, 120), t.Name, rerr, strings.Join(c.Current, ";\n"), strings.Join(c.Desired, ";\n")), "Props.C05 row_count_preserved")
 				}
 			}
+			if dataRefusal {
+				return "data: rows do not satisfy the desired constraints", touched, viols
+			}
 			return "refused: the temporary table name is taken", touched, viols
-		}
-		if strings.Contains(es, "constraint failed") || strings.Contains(es, "cannot store") || strings.Contains(es, "datatype mismatch") {
-			return "data: rows do not satisfy the desired constraints", touched, viols
 		}
 		add("failing-input", "apply-fails", fmt.Sprintf("apply fails: %v\nplan:\n%s\ncurrent:\n%s\ndesired:\n%s", trunc(es, 300), planText(plan), strings.Join(c.Current, ";\n"), strings.Join(c.Desired, ";\n")), "Props.C05 apply")
 		return
@@ -347,7 +368,9 @@ func c05Run(ctx context.Context, pool *hx.Pool, c *c05Case, cur, des *sqSchema, 
 		for id, old := range before[t.Name] {
 			for _, oc := range t.Cols {
 				nc := dt.col(oc.Name)
-				if nc == nil || nc.Type != oc.Type || oc.Gen != "" || nc.Gen != "" {
+				// (a column that is generated in the desired table is recomputed; one that WAS generated and is an
+				// ordinary column now keeps the values it had)
+				if nc == nil || nc.Type != oc.Type || nc.Gen != "" {
 					continue
 				}
 				ov, nv := old[oc.Name], after[id][oc.Name]
